@@ -299,13 +299,13 @@ fn main() {
     {
         subs.extend(simd::subs(&args));
         subs.extend(scalar::subs(&args));
-        subs.extend(asserting::subs(&args).into_iter().filter(|s| s.name.starts_with("hamilton-int/") || s.name.starts_with("hamilton-real/")));
-        subs.extend(scalar_asserting::subs(&args).into_iter().filter(|s| s.name.starts_with("hamilton-int/") || s.name.starts_with("hamilton-real/")).map(|s| s.with_div(4)));
+        subs.extend(asserting::subs(&args).into_iter().filter(|s| s.name.starts_with("hamilton-int/") || s.name.starts_with("hamilton-real/") || s.name.starts_with("lanes/")));
+        subs.extend(scalar_asserting::subs(&args).into_iter().filter(|s| s.name.starts_with("hamilton-int/") || s.name.starts_with("hamilton-real/") || s.name.starts_with("lanes/")).map(|s| s.with_div(4)));
     }
     #[cfg(feature = "core")]
     {
         subs.extend(core_simd::subs(&args));
-        subs.extend(core_asserting::subs(&args).into_iter().filter(|s| s.name.starts_with("hamilton-int/") || s.name.starts_with("hamilton-real/")).map(|s| s.with_div(4)));
+        subs.extend(core_asserting::subs(&args).into_iter().filter(|s| s.name.starts_with("hamilton-int/") || s.name.starts_with("hamilton-real/") || s.name.starts_with("lanes/")).map(|s| s.with_div(4)));
     }
     let code = main_with("C04", "see MANIFEST / evidence rule", &args, subs);
     std::process::exit(code);
